@@ -15,7 +15,19 @@ import (
 
 var hexSpaces = []string{" ", "\t", "  ", " \t ", " ", " ", "　", "\v", "\f", "\u0085"}
 var commentBodies = []string{"", " tag=1, varint", " 08 64 A2", ";;", " ; nested ; comment", " \"foo\" 0xFF", " value=100\t\tdeadbeef", " ünïcödé ✓", " g h i - #", "\t"}
-var badChars = []string{"g", "G", "x", "X", "#", "-", ",", ".", "0x", "h", "_", "/", ":", "'", "\"", "é", "z", "[", "\\"}
+var badChars = func() []string {
+	out := []string{"g", "G", "x", "X", "#", "-", ",", ".", "0x", "h", "_", "/", ":", "'", "\"", "é", "z", "[", "\\", "@", "`", "{", "~", "\x7f"}
+	// every control character that is not white space (a digit classifier that folds case with c|0x20 maps
+	// 0x10..0x19 onto '0'..'9')
+	for c := 0; c < 0x20; c++ {
+		switch c {
+		case '\t', '\n', '\v', '\f', '\r':
+		default:
+			out = append(out, string(rune(c)))
+		}
+	}
+	return out
+}()
 
 type hexRender struct {
 	text        string
@@ -286,5 +298,19 @@ func corruptOutsideComment(r *monitor.Rand, text, bad string) string {
 		return ""
 	}
 	p := positions[r.Intn(len(positions))]
+	if r.Bool() {
+		// replace a hex digit instead of inserting: the number of "digits" on the line stays even, so a parser that takes
+		// the foreign character for a digit does not trip over the count
+		var digits []int
+		for _, q := range positions {
+			if c := text[q]; c >= '0' && c <= '9' || c >= 'a' && c <= 'f' || c >= 'A' && c <= 'F' {
+				digits = append(digits, q)
+			}
+		}
+		if len(digits) > 0 {
+			q := digits[r.Intn(len(digits))]
+			return text[:q] + bad + text[q+1:]
+		}
+	}
 	return text[:p] + bad + text[p:]
 }
